@@ -5,6 +5,8 @@ use crate::operator::sink::Sink;
 use crate::operator::{ExchangeData, Operator, StreamElement};
 use crate::scheduler::ExecutionMetadata;
 
+#[cfg(feature = "verif")]
+use crate::verif::flume_shim as flume;
 use flume::Sender;
 
 #[derive(Debug, Clone)]
